@@ -46,15 +46,20 @@ def cases(tier, seed):
             nu = rng.randint(4, 5)
         field, inits, t0 = poly.random_problem(rng, d=d, nblocks=1, num_coeffs=nu + 1, degree=2, nterms=2, time_dep=rng.random() < 0.5)
         dyadic = rng.random() < 0.6
+        # planned option combinations for the estimator checks (each needs a particular strategy x calibration x flag):
+        # e.g. "covariance = unit covariance x scale^2" is checkable for the filter, and the 1/sqrt(N) flag matters for MLE only
+        vplan = [("filter", "mle", False), ("fixedpoint", "dynamic", True), ("filter", "solver", True), ("fixedpoint", "mle", False),
+                 ("filter", "dynamic", True), ("filter", "mle", True), ("fixedpoint", "mle", True), ("fixedpoint", "solver", True)]
+        planned = vplan[((k // 8) + seed) % len(vplan)] if (kind == "value" and not small) else None
         out.append(
             {
                 "id": f"{kind}-{k}", "kind": kind,
                 "fact": configs.FACTS[(k // 8) % 3] if small else configs.FACTS[(k // 4) % 3],
-                "cal": ["mle", "dynamic"][(k // 24) % 2 if tier == "thorough" else rng.randrange(2)] if small else (configs.CALS[(k // 12) % 3] if tier == "thorough" else rng.choice(configs.CALS)),
+                "cal": ["mle", "dynamic"][(k // 24) % 2 if tier == "thorough" else rng.randrange(2)] if small else (planned[1] if planned else (configs.CALS[(k // 12) % 3] if tier == "thorough" else rng.choice(configs.CALS))),
                 "ts": rng.choice(["ts0", "ts1"]), "nu": nu,
-                "strategy": rng.choice(["filter", "fixedpoint"]) if kind in ("value", "equiv_adaptive") else rng.choice(["filter", "fixedinterval"]),
+                "strategy": planned[0] if planned else (rng.choice(["filter", "fixedpoint"]) if kind in ("value", "equiv_adaptive") else rng.choice(["filter", "fixedinterval"])),
                 "c": float(2.0 ** rng.randint(-20, 20)) if dyadic else float(10 ** rng.uniform(-6, 6)), "dyadic": dyadic,
-                "base": float(10 ** rng.uniform(-1, 1)), "correct": rng.random() < 0.7, "cinit": kind == "value" and rng.random() < 0.3,
+                "base": float(10 ** rng.uniform(-1, 1)), "correct": planned[2] if planned else rng.random() < 0.7, "cinit": kind == "value" and rng.random() < 0.3,
                 "relin": rng.random() < 0.5,
                 "tol": 10 ** rng.uniform(-9, -7) if small else 10 ** rng.uniform(-5, -2), "small_residuals": small, "dt0": 10 ** rng.uniform(-2, -0.5), "T": rng.uniform(0.3, 0.8),
                 "steps": [configs.loguniform(rng, 0.02, 0.2) for _ in range(rng.randint(3, 7))],
@@ -187,6 +192,32 @@ def _run_value(case):
             if e > 1e-10:
                 viols.append(util.viol("covariance_is_unit_times_scale_squared", f"t={t}: returned covariance is not unit covariance x scale^2 ({e:.3g})", tags=tags))
                 break
+    # every strategy: the MLE solver takes the same steps as the uncalibrated one (its error estimate is calibrated locally),
+    # and its returned covariances are the uncalibrated ones times the *reported* scale squared (seed C04-s4: the 1/sqrt(N)
+    # option was honoured for the reported scale but not for the covariances)
+    if cal == "mle" and not viols and not case["cinit"]:
+        try:
+            sol_u, _states_u, attempts_u = _record(_cfg({**case, "cal": "solver"}, base), pts, case)
+        except record.BudgetExceeded:
+            sol_u = None
+        if sol_u is not None and len(attempts_u) == len(attempts) and all(abs(x[1] - y[1]) <= 1e-12 * abs(x[1]) for x, y in zip(attempts, attempts_u)):
+            fl = floors_mod.floors_for_grid(nu, d, pts, scale=base * float(np.max(scale)))
+            for j in range(len(pts)):
+                _, Pu = extract.normal_dense(extract.tree_index(sol_u.u, j))
+                _, Pm = extract.normal_dense(extract.tree_index(sol.u, j))
+                sv = np.tile(np.broadcast_to(scale[j], (d,)) if scale.ndim > 1 else np.full((d,), scale[j]), n)
+                want = Pu * sv[:, None] * sv[None, :]
+                sd = np.sqrt(np.maximum(np.diag(want), 0.0))
+                if j > 0:
+                    sd = np.maximum(sd, fl[j])
+                den = np.outer(sd, sd)
+                e = float(np.max(np.abs(Pm - want) / np.where(den > 0, den, 1.0)))
+                obs["mle_vs_uncalibrated_covariances"] = obs.get("mle_vs_uncalibrated_covariances", 0) + 1
+                obs["max_mle_vs_uncalibrated_dev"] = max(obs.get("max_mle_vs_uncalibrated_dev", 0.0), e)
+                if e > 1e-8:
+                    viols.append(util.viol("covariance_is_unit_times_scale_squared", f"t={pts[j]}: covariance of the MLE solve is not the uncalibrated covariance x reported scale^2 ({e:.3g})",
+                                           tags={**tags, "via": "uncalibrated_run"}))
+                    break
     sigs = ["|".join(str(case[k]) for k in ("fact", "cal", "ts", "strategy", "nu", "cinit", "correct"))] if N >= 3 else []
     return {"violations": viols, "obs": obs, "sigs": sigs,
             "sample": {"config": tags, "accepted_steps": N, "scale_last": scale[-1], "mle_dev_x_tol": obs.get("max_mle_scale_dev_x_tol")}}
